@@ -299,7 +299,7 @@ def build_harness(features=(), release=True):
 
 
 # ------------------------------------------------------------------ running cases
-def run_cases(cases, tag, features=(), ic=False, release=True, shards=8):
+def run_cases(cases, tag, features=(), ic=False, release=True, shards=8, runner_args=()):
     """Runs the cases through the harness and the runner.  Returns (impl_lines,
     model_lines, model_in_lines)."""
     os.makedirs(WORK, exist_ok=True)
@@ -321,7 +321,7 @@ def run_cases(cases, tag, features=(), ic=False, release=True, shards=8):
             raise BuildError("harness run failed", out.decode("utf-8", "replace")[-4000:])
     rprocs = []
     for _, base, _ in procs:
-        cmd = [RUNNER] + (["--ic"] if ic else [])
+        cmd = [RUNNER] + (["--ic"] if ic else []) + list(runner_args)
         p = subprocess.Popen(cmd, stdin=open(base + ".min", "rb"), stdout=open(base + ".mout", "wb"),
                              stderr=subprocess.PIPE)
         rprocs.append(p)
